@@ -471,3 +471,494 @@ pub open spec fn file_wf(f: &AsepriteFile) -> bool {
          "ensures": "        r == (self.file.framedata.at(self.cel_id.frame as int, self.cel_id.layer as int) is None),"},
     ],
 }
+
+# ------------------------------------------------------------------------------------------------
+# Chunk decoders over the reader contract (C01, C04, C10, C15): UNBOUNDED payload length / entity count
+# ------------------------------------------------------------------------------------------------
+UNITS["dec_userdata"] = {
+    "prelude_sections": ["errors", "rgba_only", "reader"],
+    "items": [
+        {"kind": "struct", "file": "user_data", "name": "UserData", "keep": None, "rewrites": [("image::Rgba<u8>", "Rgba<u8>")]},
+        {"kind": "verbatim", "text": """
+/// C10: text iff flag bit 0, colour iff flag bit 1, as stored
+pub open spec fn ud_flags(d: Seq<u8>) -> int { le_u32(d, 0) }
+pub open spec fn ud_has_text(d: Seq<u8>) -> bool { (ud_flags(d) % 2) == 1 }
+pub open spec fn ud_has_color(d: Seq<u8>) -> bool { ((ud_flags(d) / 2) % 2) == 1 }
+pub open spec fn ud_color_at(d: Seq<u8>) -> int { if ud_has_text(d) { str_end(d, 4) } else { 4 } }
+pub open spec fn ud_ok(d: Seq<u8>) -> bool {
+    &&& d.len() >= 4
+    &&& ud_has_text(d) ==> (str_fits(d, 4) && utf8_ok(str_bytes(d, 4)))
+    &&& ud_has_color(d) ==> ud_color_at(d) + 4 <= d.len()
+}
+"""},
+        {"kind": "fn", "file": "user_data", "name": "parse_userdata_chunk", "ret": "r", "rules": ["R1", "R6", "R11"],
+         "body_rewrites": [("image::Rgba(", "Rgba(")],
+         "ensures": ("        r is Ok <==> ud_ok(data@),\n"
+                     "        r is Ok ==> (r->Ok_0.text is Some) == ud_has_text(data@) && (r->Ok_0.color is Some) == ud_has_color(data@),\n"
+                     "        r is Ok && ud_has_text(data@) ==> r->Ok_0.text->0@ == utf8_text(str_bytes(data@, 4)),\n"
+                     "        r is Ok && ud_has_color(data@) ==> ({ let p = ud_color_at(data@); (r->Ok_0.color->0).0@ == seq![data@[p], data@[p + 1], data@[p + 2], data@[p + 3]] }),"),
+         "hints": [("let text = if", "    assert((flags & 1 != 0) == (flags % 2 == 1)) by (bit_vector);\n    assert((flags & 2 != 0) == ((flags / 2) % 2 == 1)) by (bit_vector);", "before")]},
+    ],
+}
+
+UNITS["dec_layer"] = {
+    "prelude_sections": ["errors", "rgba_only", "reader", "layer_flags_only"],
+    "items": [
+        {"kind": "struct", "file": "user_data", "name": "UserData", "keep": None, "rewrites": [("image::Rgba<u8>", "Rgba<u8>")]},
+        {"kind": "enum", "file": "layer", "name": "LayerType", "attrs": "#[derive(Clone, Copy, PartialEq, Eq)]\n"},
+        {"kind": "enum", "file": "layer", "name": "BlendMode", "attrs": "#[derive(Clone, Copy, PartialEq, Eq)]\n"},
+        {"kind": "struct", "file": "layer", "name": "LayerData", "keep": None},
+        {"kind": "verbatim", "text": """
+/// Aseprite's numeric id of a blend mode (file-format specification)
+pub open spec fn blend_id(m: BlendMode) -> int {
+    match m {
+        BlendMode::Normal => 0, BlendMode::Multiply => 1, BlendMode::Screen => 2, BlendMode::Overlay => 3, BlendMode::Darken => 4,
+        BlendMode::Lighten => 5, BlendMode::ColorDodge => 6, BlendMode::ColorBurn => 7, BlendMode::HardLight => 8, BlendMode::SoftLight => 9,
+        BlendMode::Difference => 10, BlendMode::Exclusion => 11, BlendMode::Hue => 12, BlendMode::Saturation => 13, BlendMode::Color => 14,
+        BlendMode::Luminosity => 15, BlendMode::Addition => 16, BlendMode::Subtract => 17, BlendMode::Divide => 18,
+    }
+}
+/// layer chunk 0x2004: flags(2) type(2) child level(2) default w/h(4) blend mode(2) opacity(1) reserved(3) name(STRING) [tileset index(4)]
+pub open spec fn layer_ok(d: Seq<u8>) -> bool {
+    &&& str_fits(d, 16) && utf8_ok(str_bytes(d, 16))
+    &&& le_u16(d, 2) <= 2
+    &&& le_u16(d, 2) == 2 ==> str_end(d, 16) + 4 <= d.len()
+    &&& le_u16(d, 10) <= 18
+}
+pub open spec fn layer_type_spec(d: Seq<u8>) -> LayerType {
+    if le_u16(d, 2) == 0 { LayerType::Image } else if le_u16(d, 2) == 1 { LayerType::Group } else { LayerType::Tilemap(le_u32(d, str_end(d, 16)) as u32) }
+}
+"""},
+        {"kind": "fn", "file": "layer", "name": "parse_blend_mode", "ret": "r", "rules": ["R1", "R6", "R11"],
+         "ensures": "        r is Ok <==> id <= 18,\n        r is Ok ==> blend_id(r->Ok_0) == id,"},
+        {"kind": "fn", "file": "layer", "name": "parse_layer_type", "ret": "r", "rules": ["R1", "R6", "R11", "R12"],
+         "sig_rewrites": [("<R: Read>", ""), ("AseReader<R>", "AseReader")],
+         "ensures": ("        final(reader).data() == old(reader).data(),\n"
+                     "        r is Ok <==> (id <= 1 || (id == 2 && old(reader).pos() + 4 <= old(reader).data().len())),\n"
+                     "        r is Ok && id == 0 ==> r->Ok_0 == LayerType::Image,\n"
+                     "        r is Ok && id == 1 ==> r->Ok_0 == LayerType::Group,\n"
+                     "        r is Ok && id == 2 ==> r->Ok_0 == LayerType::Tilemap(le_u32(old(reader).data(), old(reader).pos()) as u32),")},
+        {"kind": "fn", "file": "layer", "name": "parse_chunk", "key": "layer::parse_chunk", "ret": "r", "rules": ["R1", "R6", "R11"],
+         "ensures": ("        r is Ok <==> layer_ok(data@),\n"
+                     "        r is Ok ==> ({ let l = r->Ok_0; let d = data@;\n"
+                     "            &&& l.flags.bits == (le_u16(d, 0) as u32) & 0x7f\n"
+                     "            &&& l.child_level as int == le_u16(d, 4)\n"
+                     "            &&& blend_id(l.blend_mode) == le_u16(d, 10)\n"
+                     "            &&& l.opacity == d[12]\n"
+                     "            &&& l.name@ == utf8_text(str_bytes(d, 16))\n"
+                     "            &&& l.layer_type == layer_type_spec(d)\n"
+                     "            &&& l.user_data is None }),")},
+    ],
+}
+
+UNITS["dec_tags"] = {
+    "prelude_sections": ["errors", "rgba_only", "reader"],
+    "items": [
+        {"kind": "struct", "file": "user_data", "name": "UserData", "keep": None, "rewrites": [("image::Rgba<u8>", "Rgba<u8>")]},
+        {"kind": "enum", "file": "tags", "name": "AnimationDirection", "attrs": "#[derive(Clone, Copy, PartialEq, Eq)]\n"},
+        {"kind": "struct", "file": "tags", "name": "Tag", "keep": None},
+        {"kind": "verbatim", "text": """
+pub open spec fn dir_id(a: AnimationDirection) -> int {
+    match a { AnimationDirection::Forward => 0, AnimationDirection::Reverse => 1, AnimationDirection::PingPong => 2 }
+}
+/// tags chunk 0x2018: count(2) reserved(8); per tag: from(2) to(2) direction(1) repeat(2) reserved(6) colour(4) name(STRING)
+pub open spec fn tag_ok(d: Seq<u8>, o: int) -> bool {
+    o + 17 <= d.len() && str_fits(d, o + 17) && utf8_ok(str_bytes(d, o + 17)) && d[o + 4] <= 2
+}
+pub open spec fn tag_off(d: Seq<u8>, k: int) -> int
+    decreases k,
+{
+    if k <= 0 { 10 } else { str_end(d, tag_off(d, k - 1) + 17) }
+}
+pub open spec fn tags_ok(d: Seq<u8>, n: int) -> bool {
+    d.len() >= 10 && forall|j: int| 0 <= j < n ==> tag_ok(d, #[trigger] tag_off(d, j))
+}
+pub open spec fn tag_matches(t: Tag, d: Seq<u8>, o: int) -> bool {
+    &&& t.from_frame as int == le_u16(d, o)
+    &&& t.to_frame as int == le_u16(d, o + 2)
+    &&& dir_id(t.animation_direction) == d[o + 4] as int
+    &&& t.repeat as int == le_u16(d, o + 5)
+    &&& t.name@ == utf8_text(str_bytes(d, o + 17))
+    &&& t.user_data is None
+}
+"""},
+        {"kind": "fn", "file": "tags", "name": "parse_animation_direction", "ret": "r", "rules": ["R1", "R6", "R11"],
+         "ensures": "        r is Ok <==> id <= 2,\n        r is Ok ==> dir_id(r->Ok_0) == id,"},
+        {"kind": "fn", "file": "tags", "name": "parse_chunk", "key": "tags::parse_chunk", "ret": "r", "rules": ["R1", "R6", "R11"],
+         "ensures": ("        r is Ok <==> (data@.len() >= 2 && tags_ok(data@, le_u16(data@, 0))),\n"
+                     "        r is Ok ==> r->Ok_0@.len() == le_u16(data@, 0)\n"
+                     "            && forall|j: int| 0 <= j < le_u16(data@, 0) ==> tag_matches(#[trigger] r->Ok_0@[j], data@, tag_off(data@, j)),"),
+         "loops": {1: ("        invariant\n"
+                       "            reader.data() == data@, data@.len() >= 10, num_tags as int == le_u16(data@, 0),\n"
+                       "            reader.pos() == tag_off(data@, _tag as int), 10 <= reader.pos() <= data@.len(),\n"
+                       "            result@.len() == _tag,\n"
+                       "            forall|j: int| 0 <= j < _tag ==> tag_ok(data@, #[trigger] tag_off(data@, j)),\n"
+                       "            forall|j: int| 0 <= j < _tag ==> tag_matches(#[trigger] result@[j], data@, tag_off(data@, j)),")},
+         "hints": [("let from_frame =", "        let ghost o = reader.pos();\n        assert(o == tag_off(data@, _tag as int));", "before"),
+                   ("result.push(", "        assert(tag_ok(data@, o));\n        assert(tag_off(data@, _tag as int + 1) == str_end(data@, o + 17));", "before")]},
+    ],
+}
+
+UNITS["dec_ext"] = {
+    "prelude_sections": ["errors", "reader"],
+    "items": [
+        {"kind": "struct", "file": "external_file", "name": "ExternalFileId", "keep": None, "attrs": "#[derive(Clone, Copy, PartialEq, Eq)]\n"},
+        {"kind": "struct", "file": "external_file", "name": "ExternalFile", "keep": None},
+        {"kind": "verbatim", "text": """
+/// external files chunk 0x2008: count(4) reserved(8); per entry: id(4) reserved(8) name(STRING)
+pub open spec fn ext_ok(d: Seq<u8>, o: int) -> bool {
+    o + 12 <= d.len() && str_fits(d, o + 12) && utf8_ok(str_bytes(d, o + 12))
+}
+pub open spec fn ext_off(d: Seq<u8>, k: int) -> int
+    decreases k,
+{
+    if k <= 0 { 12 } else { str_end(d, ext_off(d, k - 1) + 12) }
+}
+pub open spec fn exts_ok(d: Seq<u8>, n: int) -> bool {
+    d.len() >= 12 && forall|j: int| 0 <= j < n ==> ext_ok(d, #[trigger] ext_off(d, j))
+}
+pub open spec fn ext_matches(e: ExternalFile, d: Seq<u8>, o: int) -> bool {
+    e.id.0 as int == le_u32(d, o) && e.name@ == utf8_text(str_bytes(d, o + 12))
+}
+"""},
+        {"kind": "fn", "file": "external_file", "name": "new", "key": "ExternalFileId::new", "impl_of": "ExternalFileId", "ret": "r", "ensures": "        r.0 == id,"},
+        {"kind": "fn", "file": "external_file", "name": "new", "key": "ExternalFile::new", "impl_of": "ExternalFile", "impl_filter": r"impl\s+ExternalFile\s", "ret": "r",
+         "ensures": "        r.id == id, r.name == name,"},
+        {"kind": "fn", "file": "external_file", "name": "parse_chunk", "key": "ExternalFile::parse_chunk", "impl_of": "ExternalFile", "impl_filter": r"impl\s+ExternalFile\s", "ret": "r",
+         "rules": ["R1", "R6", "R11"],
+         "ensures": ("        r is Ok <==> (data@.len() >= 4 && exts_ok(data@, le_u32(data@, 0))),\n"
+                     "        r is Ok ==> r->Ok_0@.len() == le_u32(data@, 0)\n"
+                     "            && forall|j: int| 0 <= j < le_u32(data@, 0) ==> ext_matches(#[trigger] r->Ok_0@[j], data@, ext_off(data@, j)),"),
+         "loops": {1: ("        invariant\n"
+                       "            reader.data() == data@, data@.len() >= 12, entry_ct as int == le_u32(data@, 0),\n"
+                       "            results@.len() == it.index@, reader.pos() == ext_off(data@, results@.len() as int),\n"
+                       "            forall|j: int| 0 <= j < results@.len() ==> ext_ok(data@, #[trigger] ext_off(data@, j)),\n"
+                       "            forall|j: int| 0 <= j < results@.len() ==> ext_matches(#[trigger] results@[j], data@, ext_off(data@, j)),\n"
+                       "            12 <= reader.pos() <= data@.len(),")},
+         "body_rewrites": [("for _ in 0..entry_ct", "for _ in it: 0..entry_ct")],   # names Verus' ghost iterator; no semantic change
+         "hints": [("let id = ExternalFileId::new", "            let ghost o = reader.pos();\n            let ghost k = results@.len() as int;", "before"),
+                   ("results.push(", "            assert(ext_ok(data@, o));\n            assert(ext_off(data@, k + 1) == str_end(data@, o + 12));", "before")],
+         },
+    ],
+}
+
+
+# straight-line decoders: every field is the layout read at its offset, in file order (C01, C06, C08, C15)
+RD = [("<R: Read>", ""), ("AseReader<R>", "AseReader")]
+UNITS["dec_small"] = {
+    "prelude_sections": ["errors", "reader"],
+    "items": [
+        {"kind": "struct", "file": "cel", "name": "CelCommon", "keep": None},
+        {"kind": "fn", "file": "cel", "name": "parse", "key": "CelCommon::parse", "impl_of": "CelCommon", "ret": "r", "sig_rewrites": RD,
+         "ensures": ("        final(reader).data() == old(reader).data(),\n"
+                     "        r is Ok <==> old(reader).pos() + 7 <= old(reader).data().len(),\n"
+                     "        r is Ok ==> ({ let d = old(reader).data(); let o = old(reader).pos(); let c = r->Ok_0;\n"
+                     "            c.layer_index as int == le_u16(d, o) && c.x as int == as_i16(le_u16(d, o + 2)) && c.y as int == as_i16(le_u16(d, o + 4))\n"
+                     "            && c.opacity == d[o + 6] && final(reader).pos() == o + 7 }),")},
+        {"kind": "struct", "file": "cel", "name": "ImageSize", "keep": None},
+        {"kind": "fn", "file": "cel", "name": "parse", "key": "ImageSize::parse", "impl_of": "ImageSize", "ret": "r", "sig_rewrites": RD,
+         "ensures": ("        final(reader).data() == old(reader).data(),\n"
+                     "        r is Ok <==> old(reader).pos() + 4 <= old(reader).data().len(),\n"
+                     "        r is Ok ==> r->Ok_0.width as int == le_u16(old(reader).data(), old(reader).pos())\n"
+                     "            && r->Ok_0.height as int == le_u16(old(reader).data(), old(reader).pos() + 2) && final(reader).pos() == old(reader).pos() + 4,")},
+        {"kind": "fn", "file": "cel", "name": "pixel_count", "impl_of": "ImageSize", "ret": "r",
+         "ensures": "        r as int == (self.width as int) * (self.height as int),",
+         "hints": [("self.width as usize *", "        assert((self.width as int) * (self.height as int) <= 65535 * 65535) by (nonlinear_arith)\n            requires 0 <= (self.width as int) <= 65535, 0 <= (self.height as int) <= 65535;", "before")]},
+        {"kind": "struct", "file": "slice", "name": "Slice9", "keep": None},
+        {"kind": "fn", "file": "slice", "name": "read", "key": "Slice9::read", "impl_of": "Slice9", "ret": "r", "sig_rewrites": RD,
+         "ensures": ("        final(reader).data() == old(reader).data(),\n"
+                     "        r is Ok <==> old(reader).pos() + 16 <= old(reader).data().len(),\n"
+                     "        r is Ok ==> ({ let d = old(reader).data(); let o = old(reader).pos(); let s = r->Ok_0;\n"
+                     "            s.center_x as int == as_i32(le_u32(d, o)) && s.center_y as int == as_i32(le_u32(d, o + 4))\n"
+                     "            && s.center_width as int == le_u32(d, o + 8) && s.center_height as int == le_u32(d, o + 12) && final(reader).pos() == o + 16 }),")},
+        {"kind": "struct", "file": "slice", "name": "SliceKey", "keep": None},
+        {"kind": "verbatim", "text": """
+/// slice key: frame(4) x(4) y(4) w(4) h(4) [9-slice: 16 bytes if flag bit 0] [pivot: 8 bytes if flag bit 1]
+pub open spec fn key_has9(flags: u32) -> bool { flags % 2 == 1 }
+pub open spec fn key_hasp(flags: u32) -> bool { (flags / 2) % 2 == 1 }
+pub open spec fn key_len(flags: u32) -> int { 20 + (if key_has9(flags) { 16int } else { 0 }) + (if key_hasp(flags) { 8int } else { 0 }) }
+"""},
+        {"kind": "fn", "file": "slice", "name": "read", "key": "SliceKey::read", "impl_of": "SliceKey", "ret": "r", "sig_rewrites": RD,
+         "ensures": ("        final(reader).data() == old(reader).data(),\n"
+                     "        r is Ok <==> old(reader).pos() + key_len(flags) <= old(reader).data().len(),\n"
+                     "        r is Ok ==> ({ let d = old(reader).data(); let o = old(reader).pos(); let k = r->Ok_0;\n"
+                     "            &&& k.from_frame as int == le_u32(d, o)\n"
+                     "            &&& k.origin.0 as int == as_i32(le_u32(d, o + 4)) && k.origin.1 as int == as_i32(le_u32(d, o + 8))\n"
+                     "            &&& k.size.0 as int == le_u32(d, o + 12) && k.size.1 as int == le_u32(d, o + 16)\n"
+                     "            &&& (k.slice9 is Some) == key_has9(flags)\n"
+                     "            &&& key_has9(flags) ==> k.slice9->0.center_x as int == as_i32(le_u32(d, o + 20)) && k.slice9->0.center_height as int == le_u32(d, o + 32)\n"
+                     "            &&& (k.pivot is Some) == key_hasp(flags)\n"
+                     "            &&& key_hasp(flags) ==> ({ let p = o + 20 + (if key_has9(flags) { 16int } else { 0 }); (k.pivot->0).0 as int == as_i32(le_u32(d, p)) && (k.pivot->0).1 as int == as_i32(le_u32(d, p + 4)) })\n"
+                     "            &&& final(reader).pos() == o + key_len(flags) }),"),
+         "hints": [("let slice9 = if", "        assert((flags & 1 != 0) == (flags % 2 == 1)) by (bit_vector);\n        assert((flags & 2 != 0) == ((flags / 2) % 2 == 1)) by (bit_vector);", "before")]},
+        {"kind": "struct", "file": "tilemap", "name": "TileBitmaskHeader", "keep": None},
+        {"kind": "fn", "file": "tilemap", "name": "parse", "key": "TileBitmaskHeader::parse", "impl_of": "TileBitmaskHeader", "ret": "r", "sig_rewrites": RD,
+         "ensures": ("        final(reader).data() == old(reader).data(),\n"
+                     "        r is Ok <==> old(reader).pos() + 16 <= old(reader).data().len(),\n"
+                     "        r is Ok ==> ({ let d = old(reader).data(); let o = old(reader).pos(); let h = r->Ok_0;\n"
+                     "            h.tile_id as int == le_u32(d, o) && h.x_flip as int == le_u32(d, o + 4) && h.y_flip as int == le_u32(d, o + 8)\n"
+                     "            && h.rotate_90cw as int == le_u32(d, o + 12) && final(reader).pos() == o + 16 }),")},
+        {"kind": "fn", "file": "parse", "name": "check_chunk_bytes", "ret": "r", "rules": ["R1", "R6", "R11"],
+         "body_rewrites": [("CHUNK_HEADER_SIZE", "6usize")],
+         "ensures": "        r is Ok <==> (chunk_size >= 6 && chunk_size as int <= bytes_available as int),"},
+        {"kind": "fn", "file": "palette", "name": "scale_6bit_to_8bit", "ret": "r", "rules": ["R1", "R6", "R11"],
+         "ensures": ("        r is Ok <==> color < 64,\n"
+                     "        r is Ok ==> r->Ok_0 as int == 4 * (color as int) + (color as int) / 16,"),
+         "hints": [("Ok(color << 2 | color >> 4)", "    assert(color < 64 ==> (color << 2 | color >> 4) == 4 * color + color / 16) by (bit_vector);", "before")]},
+    ],
+}
+
+UNITS["dec_colorprofile"] = {
+    "prelude_sections": ["errors", "reader"],
+    "items": [
+        {"kind": "enum", "file": "color_profile", "name": "ColorProfileType", "attrs": "#[derive(PartialEq, Eq)]\n"},
+        {"kind": "struct", "file": "color_profile", "name": "ColorProfile", "keep": None},
+        {"kind": "verbatim", "text": """
+/// colour profile chunk 0x2007: type(2) flags(2) gamma(4) reserved(8); supported: type none/sRGB without the fixed-gamma flag
+pub open spec fn cp_ok(d: Seq<u8>) -> bool {
+    d.len() >= 16 && le_u16(d, 0) <= 1 && (le_u16(d, 2) % 2) == 0
+}
+"""},
+        {"kind": "fn", "file": "color_profile", "name": "parse_color_profile_type", "ret": "r", "rules": ["R1", "R6", "R11"],
+         "ensures": ("        r is Ok <==> id <= 2,\n"
+                     "        r is Ok ==> (r->Ok_0 == ColorProfileType::None) == (id == 0) && (r->Ok_0 == ColorProfileType::Srgb) == (id == 1) && (r->Ok_0 == ColorProfileType::ICC) == (id == 2),")},
+        {"kind": "fn", "file": "color_profile", "name": "parse_chunk", "key": "color_profile::parse_chunk", "ret": "r", "rules": ["R1", "R6", "R11"],
+         # `==` through #[derive(PartialEq)] on a field-less enum is structural equality (assumed); Verus has no spec for the derived impl
+         "body_rewrites": [("profile_type == ColorProfileType::ICC", "matches!(profile_type, ColorProfileType::ICC)")],
+         "ensures": ("        r is Ok <==> cp_ok(data@),\n"
+                     "        r is Ok ==> (r->Ok_0.profile_type == ColorProfileType::None) == (le_u16(data@, 0) == 0)\n"
+                     "            && (r->Ok_0.profile_type == ColorProfileType::Srgb) == (le_u16(data@, 0) == 1),"),
+         "hints": [("let fixed_gamma = if", "    assert((flags & 1 != 0) == (flags % 2 == 1)) by (bit_vector);", "before")]},
+    ],
+}
+
+UNITS["dec_cel"] = {
+    "prelude_sections": ["errors", "rgba_only", "reader"],
+    "items": [
+        {"kind": "struct", "file": "user_data", "name": "UserData", "keep": None, "rewrites": [("image::Rgba<u8>", "Rgba<u8>")]},
+        {"kind": "enum", "file": "file", "name": "PixelFormat", "attrs": "#[derive(Clone, Copy)]\n"},
+        {"kind": "struct", "file": "cel", "name": "CelCommon", "keep": None},
+        {"kind": "struct", "file": "cel", "name": "ImageSize", "keep": None, "attrs": "#[derive(Clone, Copy)]\n"},
+        {"kind": "struct", "file": "cel", "name": "ImageContent", "keep": None},
+        {"kind": "struct", "file": "tilemap", "name": "TileBitmaskHeader", "keep": None},
+        {"kind": "verbatim", "text": """
+/// decoded pixel / tile payloads: produced by the zlib / raw payload readers, abstract here (Engine X)
+#[verifier::external_body]
+pub struct RawPixels { _p: core::marker::PhantomData<u8> }
+#[verifier::external_body]
+pub struct Tiles { _p: core::marker::PhantomData<u8> }
+impl Tiles {
+    pub uninterp spec fn len(&self) -> int;
+    /// tile::Tiles::unzip: inflates 4*count bytes (the length check in AseReader::unzip makes a different
+    /// decoded length an error) and decodes one tile per 4 bytes - ASSUMED (iterator chain + zlib)
+    #[verifier::external_body]
+    pub fn unzip(reader: AseReader, expected_tile_count: usize, header: &TileBitmaskHeader) -> (r: Result<Tiles>)
+        ensures r is Ok ==> r->Ok_0.len() == expected_tile_count,
+    { unimplemented!() }
+}
+"""},
+        {"kind": "struct", "file": "tilemap", "name": "TilemapData", "keep": None, "rewrites": [("tile::Tiles", "Tiles")]},
+        {"kind": "enum", "file": "cel", "name": "CelContent"},
+        {"kind": "struct", "file": "cel", "name": "RawCel", "keep": None, "header": "struct RawCel<P> "},
+        {"kind": "fn", "file": "cel", "name": "parse", "key": "CelCommon::parse", "impl_of": "CelCommon", "ret": "r", "sig_rewrites": RD,
+         "ensures": ("        final(reader).data() == old(reader).data(),\n"
+                     "        r is Ok <==> old(reader).pos() + 7 <= old(reader).data().len(),\n"
+                     "        r is Ok ==> ({ let d = old(reader).data(); let o = old(reader).pos(); let c = r->Ok_0;\n"
+                     "            c.layer_index as int == le_u16(d, o) && c.x as int == as_i16(le_u16(d, o + 2)) && c.y as int == as_i16(le_u16(d, o + 4))\n"
+                     "            && c.opacity == d[o + 6] && final(reader).pos() == o + 7 }),")},
+        {"kind": "fn", "file": "tilemap", "name": "parse", "key": "TileBitmaskHeader::parse", "impl_of": "TileBitmaskHeader", "ret": "r", "sig_rewrites": RD,
+         "ensures": ("        final(reader).data() == old(reader).data(),\n"
+                     "        r is Ok <==> old(reader).pos() + 16 <= old(reader).data().len(),\n"
+                     "        r is Ok ==> ({ let d = old(reader).data(); let o = old(reader).pos(); let h = r->Ok_0;\n"
+                     "            h.tile_id as int == le_u32(d, o) && h.x_flip as int == le_u32(d, o + 4) && h.y_flip as int == le_u32(d, o + 8)\n"
+                     "            && h.rotate_90cw as int == le_u32(d, o + 12) && final(reader).pos() == o + 16 }),")},
+        {"kind": "fn", "file": "tilemap", "name": "parse_chunk", "key": "TilemapData::parse_chunk", "impl_of": "TilemapData", "ret": "r", "rules": ["R1", "R6", "R11"],
+         "sig_rewrites": RD, "body_rewrites": [("tile::Tiles::unzip", "Tiles::unzip")],
+         "ensures": ("        ({ let d = reader.data(); let o = reader.pos();\n"
+                     "           &&& (o + 6 <= d.len() && le_u16(d, o + 4) != 32) ==> r is Err       // C15: other than 32 bits per tile is refused\n"
+                     "           &&& r is Ok ==> o + 32 <= d.len() && le_u16(d, o + 4) == 32\n"
+                     "               && r->Ok_0.width as int == le_u16(d, o) && r->Ok_0.height as int == le_u16(d, o + 2)\n"
+                     "               && r->Ok_0.bitmask_header.tile_id as int == le_u32(d, o + 6)\n"
+                     "               && r->Ok_0.tiles.len() == (r->Ok_0.width as int) * (r->Ok_0.height as int) }),"),
+         "hints": [("let expected_tile_count =", "        assert((width as int) * (height as int) <= 65535 * 65535) by (nonlinear_arith)\n            requires 0 <= (width as int) <= 65535, 0 <= (height as int) <= 65535;", "before")]},
+        {"kind": "verbatim", "text": """
+/// raw / compressed image cel payloads (ImageSize + pixel data through take_bytes / zlib): ASSUMED contract –
+/// on success the stored size is the size read at the cursor (the pixel payload itself is covered by the Kani
+/// obligations k_cel_raw_* and by Engine X)
+#[verifier::external_body]
+fn parse_raw_cel(reader: AseReader, pixel_format: PixelFormat) -> (r: Result<ImageContent<RawPixels>>)
+    ensures r is Ok ==> reader.pos() + 4 <= reader.data().len()
+        && r->Ok_0.size.width as int == le_u16(reader.data(), reader.pos()) && r->Ok_0.size.height as int == le_u16(reader.data(), reader.pos() + 2),
+{ unimplemented!() }
+#[verifier::external_body]
+fn parse_compressed_cel(reader: AseReader, pixel_format: PixelFormat) -> (r: Result<ImageContent<RawPixels>>)
+    ensures r is Ok ==> reader.pos() + 4 <= reader.data().len()
+        && r->Ok_0.size.width as int == le_u16(reader.data(), reader.pos()) && r->Ok_0.size.height as int == le_u16(reader.data(), reader.pos() + 2),
+{ unimplemented!() }
+"""},
+        {"kind": "fn", "file": "cel", "name": "parse", "key": "CelContent::parse", "impl_of": "CelContent", "impl_filter": r"impl\s+CelContent<RawPixels>",
+         "impl_header": "CelContent<RawPixels>", "ret": "r", "rules": ["R1", "R6", "R11", "R12"], "sig_rewrites": RD,
+         "ensures": ("        ({ let d = reader.data(); let o = reader.pos();\n"
+                     "           &&& cel_type > 3 ==> r is Err                                      // C15: unknown cel types are refused\n"
+                     "           &&& cel_type == 1 ==> ((r is Ok) == (o + 2 <= d.len())) && (r is Ok ==> r->Ok_0 is Linked && r->Ok_0->Linked_0 as int == le_u16(d, o))\n"
+                     "           &&& (cel_type == 0 || cel_type == 2) && r is Ok ==> r->Ok_0 is Raw && r->Ok_0->Raw_0.size.width as int == le_u16(d, o) && r->Ok_0->Raw_0.size.height as int == le_u16(d, o + 2)\n"
+                     "           &&& cel_type == 3 && r is Ok ==> r->Ok_0 is Tilemap && r->Ok_0->Tilemap_0.width as int == le_u16(d, o) && le_u16(d, o + 4) == 32 }),")},
+        {"kind": "fn", "file": "cel", "name": "parse_chunk", "key": "cel::parse_chunk", "ret": "r", "rules": ["R1", "R6", "R11"],
+         "ensures": ("        ({ let d = data@;\n"
+                     "           &&& r is Ok ==> d.len() >= 16\n"
+                     "               && r->Ok_0.data.layer_index as int == le_u16(d, 0) && r->Ok_0.data.x as int == as_i16(le_u16(d, 2)) && r->Ok_0.data.y as int == as_i16(le_u16(d, 4))\n"
+                     "               && r->Ok_0.data.opacity == d[6] && r->Ok_0.user_data is None\n"
+                     "           &&& d.len() >= 9 && le_u16(d, 7) > 3 ==> r is Err\n"
+                     "           &&& d.len() >= 9 && le_u16(d, 7) == 1 ==> ((r is Ok) == (d.len() >= 18)) && (r is Ok ==> r->Ok_0.content is Linked && r->Ok_0.content->Linked_0 as int == le_u16(d, 16))\n"
+                     "           &&& r is Ok && (le_u16(d, 7) == 0 || le_u16(d, 7) == 2) ==> r->Ok_0.content is Raw && r->Ok_0.content->Raw_0.size.width as int == le_u16(d, 16)\n"
+                     "               && r->Ok_0.content->Raw_0.size.height as int == le_u16(d, 18)\n"
+                     "           &&& r is Ok && le_u16(d, 7) == 3 ==> r->Ok_0.content is Tilemap && le_u16(d, 20) == 32 }),")},
+    ],
+}
+
+UNITS["dec_tileset"] = {
+    "prelude_sections": ["errors", "reader", "std_extra"],
+    "items": [
+        {"kind": "enum", "file": "file", "name": "PixelFormat", "attrs": "#[derive(Clone, Copy)]\n"},
+        {"kind": "fn", "file": "file", "name": "bytes_per_pixel", "impl_of": "PixelFormat", "ret": "r",
+         "ensures": "        r == (match *self { PixelFormat::Rgba => 4usize, PixelFormat::Grayscale => 2usize, PixelFormat::Indexed { .. } => 1usize }),"},
+        {"kind": "struct", "file": "external_file", "name": "ExternalFileId", "keep": None, "attrs": "#[derive(Clone, Copy, PartialEq, Eq)]\n"},
+        {"kind": "fn", "file": "external_file", "name": "new", "key": "ExternalFileId::new", "impl_of": "ExternalFileId", "ret": "r", "ensures": "        r.0 == id,"},
+        {"kind": "struct", "file": "tileset", "name": "ExternalTilesetReference", "keep": None},
+        {"kind": "struct", "file": "tileset", "name": "TileSize", "keep": None, "attrs": "#[derive(Clone, Copy)]\n"},
+        {"kind": "struct", "file": "tileset", "name": "Tileset", "keep": None, "header": "struct Tileset<P> "},
+        {"kind": "verbatim", "text": """
+/// shim for the bitflags-generated TilesetFlags (TRUSTED): LINKS_EXTERNAL_FILE = 1, FILE_INCLUDES_TILES = 2, EMPTY_TILE_IS_ID_ZERO = 4
+#[derive(Clone, Copy)]
+pub struct TilesetFlags { pub bits: u32 }
+impl TilesetFlags {
+    pub const LINKS_EXTERNAL_FILE: TilesetFlags = TilesetFlags { bits: 1 };
+    pub const FILE_INCLUDES_TILES: TilesetFlags = TilesetFlags { bits: 2 };
+    pub const EMPTY_TILE_IS_ID_ZERO: TilesetFlags = TilesetFlags { bits: 4 };
+    #[verifier::external_body]
+    pub fn from_bits_truncate(bits: u32) -> (r: TilesetFlags)
+        ensures r.bits == bits & 7,
+    { unimplemented!() }
+    pub fn contains(&self, other: TilesetFlags) -> (r: bool)
+        ensures r == ((self.bits & other.bits) == other.bits),
+    { (self.bits & other.bits) == other.bits }
+}
+/// decoded tileset pixels: zlib payload, abstract here (Engine X)
+#[verifier::external_body]
+pub struct RawPixels { _p: core::marker::PhantomData<u8> }
+impl RawPixels {
+    #[verifier::external_body]
+    pub fn from_compressed(reader: AseReader, pixel_format: PixelFormat, expected_pixel_count: usize) -> (r: Result<RawPixels>)
+    { unimplemented!() }
+}
+/// tileset chunk 0x2023: id(4) flags(4) tile count(4) tile w(2) tile h(2) base index(2) reserved(14) name(STRING)
+/// [external file id(4) tileset id(4) if flag 1] [compressed length(4) + zlib pixels if flag 2]
+pub open spec fn ts_flag(d: Seq<u8>, bit: int) -> bool { (le_u32(d, 4) / bit) % 2 == 1 }
+pub open spec fn ts_head_ok(d: Seq<u8>) -> bool {
+    &&& d.len() >= 32 && le_u16(d, 12) >= 1 && le_u16(d, 14) >= 1
+    &&& str_fits(d, 32) && utf8_ok(str_bytes(d, 32))
+    &&& ts_flag(d, 1) ==> str_end(d, 32) + 8 <= d.len()
+}
+"""},
+        {"kind": "fn", "file": "tileset", "name": "parse", "key": "ExternalTilesetReference::parse", "impl_of": "ExternalTilesetReference", "ret": "r",
+         "rules": ["R1", "R6", "R11", "R12"], "sig_rewrites": [("<T: Read>", ""), ("AseReader<T>", "AseReader")],
+         "ensures": ("        final(reader).data() == old(reader).data(),\n"
+                     "        r is Ok <==> old(reader).pos() + 8 <= old(reader).data().len(),\n"
+                     "        r is Ok ==> r->Ok_0.external_file_id.0 as int == le_u32(old(reader).data(), old(reader).pos())\n"
+                     "            && r->Ok_0.tileset_id as int == le_u32(old(reader).data(), old(reader).pos() + 4) && final(reader).pos() == old(reader).pos() + 8,")},
+        {"kind": "fn", "file": "tileset", "name": "parse_chunk", "key": "Tileset::parse_chunk", "impl_of": "Tileset", "impl_filter": r"impl\s+Tileset<RawPixels>",
+         "impl_header": "Tileset<RawPixels>", "ret": "r", "rules": ["R1", "R6", "R11", "R12"],
+         "body_rewrites": [("RawPixels::from_compressed(reader, pixel_format, expected_pixel_count).map(Some)?", "Some(RawPixels::from_compressed(reader, pixel_format, expected_pixel_count)?)")],
+         "ensures": ("        ({ let d = data@;\n"
+                     "           &&& r is Ok ==> ts_head_ok(d)\n"
+                     "           &&& !ts_flag(d, 2) ==> ((r is Ok) == ts_head_ok(d))\n"
+                     "           &&& r is Ok ==> ({ let t = r->Ok_0;\n"
+                     "                &&& t.id as int == le_u32(d, 0) && t.tile_count as int == le_u32(d, 8)\n"
+                     "                &&& t.tile_size.width as int == le_u16(d, 12) && t.tile_size.height as int == le_u16(d, 14)\n"
+                     "                &&& t.base_index as int == as_i16(le_u16(d, 16))\n"
+                     "                &&& t.empty_tile_is_id_zero == ts_flag(d, 4)\n"
+                     "                &&& t.name@ == utf8_text(str_bytes(d, 32))\n"
+                     "                &&& (t.external_file is Some) == ts_flag(d, 1)\n"
+                     "                &&& ts_flag(d, 1) ==> t.external_file->0.external_file_id.0 as int == le_u32(d, str_end(d, 32)) && t.external_file->0.tileset_id as int == le_u32(d, str_end(d, 32) + 4)\n"
+                     "                &&& (t.pixels is Some) == ts_flag(d, 2) }) }),"),
+         "hints": [("let empty_tile_is_id_zero =", "        let ghost fl = le_u32(data@, 4) as u32;\n"
+                    "        assert(flags.bits == fl & 7);\n"
+                    "        assert(((fl & 7) & 1 == 1) == ((fl / 1) % 2 == 1)) by (bit_vector);\n"
+                    "        assert(((fl & 7) & 2 == 2) == ((fl / 2) % 2 == 1)) by (bit_vector);\n"
+                    "        assert(((fl & 7) & 4 == 4) == ((fl / 4) % 2 == 1)) by (bit_vector);", "before")]},
+    ],
+}
+
+UNITS["dec_palette"] = {
+    "prelude_sections": ["errors", "reader", "intmap"],
+    "items": [
+        {"kind": "struct", "file": "palette", "name": "ColorPaletteEntry", "keep": None},
+        {"kind": "struct", "file": "palette", "name": "ColorPalette", "keep": None},
+        {"kind": "verbatim", "text": """
+/// C11: 6-bit component scaling of the legacy chunk 0x0011
+pub open spec fn scale6(c: int) -> int { 4 * c + c / 16 }
+/// legacy palette chunks 0x0004 / 0x0011: packets(2); per packet: skip(1) count(1, 0 = 256) then count RGB triples.
+/// Offset of packet k and the running entry index ("skip total") before it.
+pub open spec fn pk_count(d: Seq<u8>, o: int) -> int { if d[o + 1] == 0 { 256 } else { d[o + 1] as int } }
+pub open spec fn pk_off(d: Seq<u8>, k: int) -> int
+    decreases k,
+{
+    if k <= 0 { 2 } else { pk_off(d, k - 1) + 2 + 3 * pk_count(d, pk_off(d, k - 1)) }
+}
+pub open spec fn pk_skip(d: Seq<u8>, k: int) -> int
+    decreases k,
+{
+    if k <= 0 { 0 } else { pk_skip(d, k - 1) + d[pk_off(d, k - 1)] as int }
+}
+"""},
+        {"kind": "fn", "file": "palette", "name": "color", "impl_of": "ColorPalette", "ret": "r",
+         "ensures": "        (r is Some) == self.entries@.contains_key(index), r is Some ==> *(r->0) == self.entries@[index],"},
+        {"kind": "fn", "file": "palette", "name": "scale_6bit_to_8bit", "ret": "r", "rules": ["R1", "R6", "R11"],
+         "ensures": ("        r is Ok <==> color < 64,\n"
+                     "        r is Ok ==> r->Ok_0 as int == scale6(color as int),"),
+         "hints": [("Ok(color << 2 | color >> 4)", "    assert(color < 64 ==> (color << 2 | color >> 4) == 4 * color + color / 16) by (bit_vector);", "before")]},
+        {"kind": "fn", "file": "palette", "name": "validate_indexed_pixels", "impl_of": "ColorPalette", "ret": "r", "rules": ["R1", "R6", "R11"],
+         "body_rewrites": [("for pixel in indexed_pixels {", "for pixel in it: indexed_pixels {")],
+         "loops": {1: ("            invariant\n"
+                       "                forall|i: int| 0 <= i < it.index@ ==> self.entries@.contains_key(#[trigger] indexed_pixels@[i] as u32),")},
+         "ensures": "        r is Ok <==> forall|i: int| 0 <= i < indexed_pixels@.len() ==> self.entries@.contains_key(#[trigger] indexed_pixels@[i] as u32),"},
+        {"kind": "verbatim", "text": """
+/// new palette chunk 0x2019: size(4) first(4) last(4) reserved(8); per entry: flags(2) rgba(4) [name(STRING) if flag bit 0]
+pub open spec fn pe_named(d: Seq<u8>, o: int) -> bool { le_u16(d, o) % 2 == 1 }
+pub open spec fn pe_ok(d: Seq<u8>, o: int) -> bool {
+    o + 6 <= d.len() && (pe_named(d, o) ==> (str_fits(d, o + 6) && utf8_ok(str_bytes(d, o + 6))))
+}
+pub open spec fn pe_end(d: Seq<u8>, o: int) -> int { if pe_named(d, o) { str_end(d, o + 6) } else { o + 6 } }
+pub open spec fn pe_off(d: Seq<u8>, k: int) -> int
+    decreases k,
+{
+    if k <= 0 { 20 } else { pe_end(d, pe_off(d, k - 1)) }
+}
+pub open spec fn pal_ok(d: Seq<u8>) -> bool {
+    d.len() >= 20 && le_u32(d, 8) >= le_u32(d, 4)
+        && forall|j: int| 0 <= j <= le_u32(d, 8) - le_u32(d, 4) ==> pe_ok(d, #[trigger] pe_off(d, j))
+}
+pub open spec fn pe_matches(e: ColorPaletteEntry, d: Seq<u8>, o: int, id: int) -> bool {
+    e.id as int == id && e.rgba8@ == seq![d[o + 2], d[o + 3], d[o + 4], d[o + 5]]
+        && (e.name is Some) == pe_named(d, o) && (pe_named(d, o) ==> e.name->0@ == utf8_text(str_bytes(d, o + 6)))
+}
+"""},
+        {"kind": "fn", "file": "palette", "name": "parse_chunk", "key": "palette::parse_chunk", "ret": "r", "rules": ["R1", "R6", "R11"],
+         "body_rewrites": [("for id in first_color_index..=last_color_index {", "for id in it: first_color_index..=last_color_index {")],
+         "ensures": ("        r is Ok <==> pal_ok(data@),\n"
+                     "        r is Ok ==> ({ let first = le_u32(data@, 4); let last = le_u32(data@, 8); let m = r->Ok_0.entries@;\n"
+                     "            &&& forall|i: u32| m.contains_key(i) <==> first <= i as int <= last\n"
+                     "            &&& forall|i: u32| first <= i as int <= last ==> pe_matches(#[trigger] m[i], data@, pe_off(data@, i as int - first), i as int) }),"),
+         "loops": {1: ("        invariant\n"
+                       "            reader.data() == data@, data@.len() >= 20, first_color_index as int == le_u32(data@, 4), last_color_index as int == le_u32(data@, 8),\n"
+                       "            first_color_index <= last_color_index,\n"
+                       "            reader.pos() == pe_off(data@, it.index@ as int), 20 <= reader.pos() <= data@.len(),\n"
+                       "            forall|j: int| 0 <= j < it.index@ ==> pe_ok(data@, #[trigger] pe_off(data@, j)),\n"
+                       "            forall|i: u32| entries@.contains_key(i) <==> first_color_index <= i && (i as int) < first_color_index + it.index@,\n"
+                       "            forall|i: u32| first_color_index <= i && (i as int) < first_color_index + it.index@ ==> pe_matches(#[trigger] entries@[i], data@, pe_off(data@, i as int - first_color_index), i as int),")},
+         "hints": [("let flags = reader.word()?;", "        let ghost o = reader.pos();\n        let ghost k = it.index@ as int;\n        assert(id as int == first_color_index + k);", "before"),
+                   ("let name = if", "        assert((flags & 1 == 1) == (flags % 2 == 1)) by (bit_vector);", "before"),
+                   ("entries.insert(", "        assert(pe_ok(data@, o));\n        assert(pe_off(data@, k + 1) == pe_end(data@, o));", "before")],
+         },
+    ],
+}
